@@ -654,14 +654,12 @@ func worker(cf string) {
 			continue
 		}
 		ok, _, _, _, err := d.Authenticate(u, "pass word")
-		bad, _, _, _, _ := d.Authenticate(u, "pass word2")
-		switch {
-		case ok && !bad:
+		// (no wrong-password probe here: with a 1-byte digest length a wrong password matches
+		// with probability 1/256 by design of the configured parameters - that is C01's
+		// subject for sane parameters, not a crash)
+		if ok {
 			res = append(res, fmt.Sprintf("%d:verified", id))
-		case bad:
-			fmt.Println("WORKER-BAD wrong password accepted under set", id)
-			os.Exit(4)
-		default:
+		} else {
 			fmt.Println("WORKER-BAD own record not verified under set", id, err)
 			os.Exit(4)
 		}
